@@ -9,6 +9,7 @@ import (
 	"github.com/matrix-org/gomatrixserverlib/spec"
 	"github.com/tidwall/gjson"
 	"github.com/tidwall/sjson"
+	"golang.org/x/crypto/ed25519"
 )
 
 type eventV3 struct {
@@ -26,6 +27,24 @@ func (e *eventV3) RoomID() spec.RoomID {
 		panic(fmt.Errorf("RoomID is invalid: %w", err))
 	}
 	return *roomID
+}
+
+// SetUnsigned is inherited from eventV2 and would otherwise hand back an *eventV2,
+// losing the room ID and auth event behaviour of this event format.
+func (e *eventV3) SetUnsigned(unsigned interface{}) (PDU, error) {
+	result, err := e.eventV2.SetUnsigned(unsigned)
+	if err != nil {
+		return nil, err
+	}
+	return &eventV3{eventV2: *result.(*eventV2)}, nil
+}
+
+// Sign is inherited from eventV2 and would otherwise hand back an *eventV2,
+// losing the room ID and auth event behaviour of this event format.
+func (e *eventV3) Sign(signingName string, keyID KeyID, privateKey ed25519.PrivateKey) PDU {
+	// This signs the embedded event in place.
+	e.eventV2.Sign(signingName, keyID, privateKey)
+	return e
 }
 
 func (e *eventV3) AuthEventIDs() []string {
